@@ -20,7 +20,20 @@ package obiformats
 //            sweep that moves kseq's 4096-byte refill boundary over every byte of a 3-record tail.
 //  E4 "e4"   in-process version of E4: one 3 MiB FASTA / FASTQ file (>= 3 production chunks of 1 MiB)
 //            through ReadFastaFromFile / ReadFastqFromFile / ReadSequencesFromFile with 1, 2, 4
-//            workers, plain and gzip, and through the kseq reader.
+//            workers, plain and gzip, and through the kseq reader; with and without full file batch;
+//            through the process's stdin (pipe and regular file).
+//
+// Added by the audit of the check:
+//  options   E1 parses GenBank / EMBL chunks without AND with the feature table (withFeatureTable: the
+//            featBytes accumulator) and compares the table's lines; "pipe" / "e4" cross the readers with
+//            OptionsFullFileBatch off/on, WithFeatureTable off/on (flat files) and OptionsReadQualities(false).
+//  "stdin"   file descriptor 0 of the process is made a regular file (`cmd < FILE`) or a pipe
+//            (`cat FILE | cmd`), plain or gzip, and read by ReadFastSeqFromStdin (kseq on C stdin: what the
+//            commands use), ReadGenbank / ReadEMBL(os.Stdin), ReadFasta / ReadFastqFromStdin and the "-" file name.
+//  "bigflat" (thorough) a 131 MiB GenBank / EMBL file: the only way to get two production chunks (128 MiB
+//            buffer) out of ReadGenbank / ReadEMBL; 3 workers, and 2 workers with full file batch.
+//  deadlock  an entry point that never delivers is recognised exactly (no goroutine of the process can run,
+//            twice 300 ms apart), reported once per entry point and shard, then skipped.
 //
 // Oracle: generator truth (id, definition, lower-cased nucleotides, qualities - shift, taxid /
 // scientific_name when the record text carries them); for fields the record text does not carry
@@ -61,7 +74,7 @@ import (
 // ---------------------------------------------------------------- replayable case
 
 type c01case struct {
-	Part      string `json:"part"`             // e1 | pipe | e3 | e3sweep | e4
+	Part      string `json:"part"`             // e1 | pipe | e3 | e3sweep | e4 | stdin | bigflat
 	Fmt       string `json:"fmt"`              // fasta fastq genbank embl
 	Shapes    []int  `json:"shapes,omitempty"` // shape index of each record of the file
 	CRLF      bool   `json:"crlf,omitempty"`
@@ -70,11 +83,15 @@ type c01case struct {
 	Split     int    `json:"split,omitempty"`     // first piece length of transport "split"
 	Buf       int    `json:"buf,omitempty"`       // read-buffer size (0 in a replay = all sizes)
 	WithQual  bool   `json:"with_quality"`
-	Pad       int    `json:"pad,omitempty"`     // e3sweep: sequence length of the padding record
-	PadId     int    `json:"padid,omitempty"`   // e3sweep: extra characters in the padding record's id
-	Reader    string `json:"reader,omitempty"`  // pipe/e4: universal | format | kseq
-	Workers   int    `json:"workers,omitempty"` // pipe/e4
-	Ext       string `json:"ext,omitempty"`     // pipe/e3/e4: "", .gz, .bz2, .xz, .zst
+	Pad       int    `json:"pad,omitempty"`             // e3sweep: sequence length of the padding record
+	PadId     int    `json:"padid,omitempty"`           // e3sweep: extra characters in the padding record's id
+	Reader    string `json:"reader,omitempty"`          // pipe/e4: universal | format | kseq ; stdin: kseq-stdin | format-stdin | universal-dash | format-dash
+	Workers   int    `json:"workers,omitempty"`         // pipe/e4
+	Ext       string `json:"ext,omitempty"`             // pipe/e3/e4: "", .gz, .bz2, .xz, .zst
+	WithFeat  bool   `json:"with_features,omitempty"`   // flat files: parser / reader asked for the feature table
+	FullBatch bool   `json:"full_file_batch,omitempty"` // pipe/e4/stdin/bigflat: OptionsFullFileBatch(true)
+	Fd0       string `json:"fd0,omitempty"`             // stdin: what file descriptor 0 is (file | pipe)
+	Big       bool   `json:"big,omitempty"`             // stdin: the 3 MiB file of E4 instead of a corpus file
 }
 
 // ---------------------------------------------------------------- fatal interception
@@ -146,14 +163,28 @@ func c01isolate(f func()) string {
 	// Hang watchdog. The machine is shared and may be heavily loaded, so wall time alone proves
 	// nothing: a spinning loop is recognised by the CPU time the process burns (GOMAXPROCS=1: the
 	// process does nothing else), a deadlock only by a very generous wall bound.
+	// A deadlock is recognised exactly: twice in a row, 300 ms apart, no goroutine of the process
+	// can run (all of them wait on a channel, a WaitGroup, a lock ... ; the harness has no outside
+	// partner: pipes are fed by goroutines of this process, see c01allBlocked).
 	cpu0, wall0 := c01cpu(), time.Now()
+	lastCPU, blocked := cpu0, 0
 wait:
 	for {
 		select {
 		case out = <-done:
 			break wait
-		case <-time.After(5 * time.Second):
-			if c01cpu()-cpu0 > 120*time.Second {
+		case <-time.After(300 * time.Millisecond):
+			now := c01cpu()
+			if now-lastCPU < 5*time.Millisecond && c01allBlocked() {
+				blocked++
+				if blocked >= 2 {
+					return "hang: deadlock, every goroutine is blocked (" + c01blockedWhere() + ")"
+				}
+			} else {
+				blocked = 0
+			}
+			lastCPU = now
+			if now-cpu0 > 120*time.Second {
 				return "hang: no result after 120 s of CPU time"
 			}
 			if time.Since(wall0) > 45*time.Minute {
@@ -167,8 +198,78 @@ wait:
 	return out
 }
 
+// c01goroutines returns the header line + stack of every goroutine but the calling one.
+func c01goroutines() []string {
+	buf := make([]byte, 1<<20)
+	for {
+		n := runtime.Stack(buf, true)
+		if n < len(buf) {
+			buf = buf[:n]
+			break
+		}
+		buf = make([]byte, 2*len(buf))
+	}
+	gs := strings.Split(string(buf), "\n\n")
+	if len(gs) > 0 {
+		gs = gs[1:] // the first one is the caller
+	}
+	return gs
+}
+
+// c01allBlocked: no goroutine (but the caller) is running, runnable, sleeping, in a system / cgo
+// call or waiting for I/O. Goroutines feeding a pipe of the harness (c01pipeFeed) do not count: they
+// wait for the reader under test.
+func c01allBlocked() bool {
+	for _, g := range c01goroutines() {
+		if strings.Contains(g, "c01pipeFeed") || strings.Contains(g, "os/signal.signal_recv") {
+			continue
+		}
+		hdr := g
+		if i := strings.IndexByte(g, '\n'); i >= 0 {
+			hdr = g[:i]
+		}
+		if strings.Contains(hdr, "(idle)") || strings.Contains(hdr, "[GC sweep wait") || strings.Contains(hdr, "[GC scavenge wait") || strings.Contains(hdr, "[finalizer wait") {
+			continue // parked runtime helpers
+		}
+		for _, alive := range []string{"[running", "[runnable", "[sleep", "[syscall", "[IO wait", "[GC ", "[timer", "[preempted", "[copystack", "[debug call"} {
+			if strings.Contains(hdr, alive) {
+				return false
+			}
+		}
+	}
+	return true
+}
+
+// c01blockedWhere names the obitools functions the blocked goroutines wait in (diagnostic).
+func c01blockedWhere() string {
+	seen := map[string]bool{}
+	var out []string
+	for _, g := range c01goroutines() {
+		for _, l := range strings.Split(g, "\n") {
+			if i := strings.Index(l, "obitools4/pkg/"); i >= 0 && !strings.HasPrefix(l, "\t") && !strings.Contains(l, "c01") && !strings.Contains(l, "created by") {
+				fn := l[i+len("obitools4/pkg/"):]
+				if j := strings.LastIndexByte(fn, '('); j > 0 {
+					fn = fn[:j]
+				}
+				if !seen[fn] {
+					seen[fn] = true
+					out = append(out, fn)
+				}
+				break
+			}
+		}
+	}
+	sort.Strings(out)
+	if len(out) > 6 {
+		out = out[:6]
+	}
+	return strings.Join(out, ", ")
+}
+
 func c01abClass(ab string) string {
 	switch {
+	case strings.HasPrefix(ab, "hang: deadlock"):
+		return "deadlock"
 	case strings.HasPrefix(ab, "hang"):
 		return "hang"
 	case strings.HasPrefix(ab, "panic"):
@@ -209,6 +310,7 @@ type c01rec struct {
 	HasSci       bool
 	Sci          string
 	Text         string // record text, LF line ends, ends with LF
+	Feat         string // flat files: the lines of the feature table (header line included), joined by LF
 }
 
 var c01taxids = []int{9606, 10090, 7227, 4932}
@@ -366,12 +468,13 @@ func c01genGenbank(shape, pos int) c01rec {
 		r.HasSci, r.Sci = true, c01names[pos%len(c01names)]
 		fmt.Fprintf(&sb, "SOURCE      %s\n  ORGANISM  %s\n            Eukaryota; Opisthokonta.\n", r.Sci, r.Sci)
 	}
-	fmt.Fprintf(&sb, "FEATURES             Location/Qualifiers\n     source          1..%d\n                     /mol_type=\"genomic DNA\"\n", n)
+	r.Feat = fmt.Sprintf("FEATURES             Location/Qualifiers\n     source          1..%d\n                     /mol_type=\"genomic DNA\"", n)
 	if tax {
 		r.HasTax, r.Taxid = true, c01taxids[pos%len(c01taxids)]
-		fmt.Fprintf(&sb, "                     /db_xref=\"taxon:%d\"\n", r.Taxid)
+		r.Feat += fmt.Sprintf("\n                     /db_xref=\"taxon:%d\"", r.Taxid)
 	}
-	sb.WriteString("ORIGIN      \n")
+	sb.WriteString(r.Feat)
+	sb.WriteString("\nORIGIN      \n")
 	for i := 0; i < n; i += 60 {
 		fmt.Fprintf(&sb, "%9d", i+1)
 		for j := i; j < i+60 && j < n; j += 10 {
@@ -411,12 +514,13 @@ func c01genEmbl(shape, pos int) c01rec {
 		r.HasSci, r.Sci = true, c01names[pos%len(c01names)]
 		fmt.Fprintf(&sb, "OS   %s\nOC   Eukaryota; Opisthokonta.\nXX\n", r.Sci)
 	}
-	fmt.Fprintf(&sb, "FH   Key             Location/Qualifiers\nFH\nFT   source          1..%d\nFT                   /mol_type=\"genomic DNA\"\n", n)
+	r.Feat = fmt.Sprintf("FH   Key             Location/Qualifiers\nFH\nFT   source          1..%d\nFT                   /mol_type=\"genomic DNA\"", n)
 	if tax {
 		r.HasTax, r.Taxid = true, c01taxids[pos%len(c01taxids)]
-		fmt.Fprintf(&sb, "FT                   /db_xref=\"taxon:%d\"\n", r.Taxid)
+		r.Feat += fmt.Sprintf("\nFT                   /db_xref=\"taxon:%d\"", r.Taxid)
 	}
-	fmt.Fprintf(&sb, "XX\nSQ   Sequence %d BP; 0 A; 0 C; 0 G; 0 T; 0 other;\n", n)
+	sb.WriteString(r.Feat)
+	fmt.Fprintf(&sb, "\nXX\nSQ   Sequence %d BP; 0 A; 0 C; 0 G; 0 T; 0 other;\n", n)
 	for i := 0; i < n; i += 60 {
 		line := "    "
 		e := i
@@ -522,10 +626,11 @@ type c01obs struct {
 	Qual         []byte // nil: no qualities stored
 	Ann          map[string]string
 	Source       string
+	Feat         string // feature table as stored ("" when none)
 }
 
 func c01observe(s *obiseq.BioSequence) c01obs {
-	o := c01obs{Id: s.Id(), Def: s.Definition(), Seq: s.String(), Source: s.Source(), Ann: map[string]string{}}
+	o := c01obs{Id: s.Id(), Def: s.Definition(), Seq: s.String(), Source: s.Source(), Ann: map[string]string{}, Feat: s.Features()}
 	if s.HasQualities() {
 		o.Qual = append([]byte{}, s.Qualities()...)
 	}
@@ -550,14 +655,20 @@ func c01splitter(f string) LastSeqRecord {
 	return EndOfLastFlatFileEntry
 }
 
-func c01parser(f string, withQual bool) (SeqFileChunkParser, string) {
+func c01parser(f string, withQual, withFeat bool) (SeqFileChunkParser, string) {
 	switch f {
 	case "fasta":
 		return FastaChunkParser(), "FastaChunkParser"
 	case "fastq":
 		return FastqChunkParser(33, withQual), fmt.Sprintf("FastqChunkParser(with_quality=%v)", withQual)
 	case "genbank":
+		if withFeat {
+			return GenbankChunkParser(true), "GenbankChunkParser(with_features)"
+		}
 		return GenbankChunkParser(false), "GenbankChunkParser"
+	}
+	if withFeat {
+		return EmblChunkParser(true), "EmblChunkParser(with_features)"
 	}
 	return EmblChunkParser(false), "EmblChunkParser"
 }
@@ -566,7 +677,7 @@ func c01parser(f string, withQual bool) (SeqFileChunkParser, string) {
 var c01aloneCache = map[string]*c01obs{}
 
 func c01alone(c c01case, pos int, withQual bool) *c01obs {
-	key := fmt.Sprintf("%s/%d/%d/%v/%v", c.Fmt, c.Shapes[pos], pos, c.CRLF, withQual)
+	key := fmt.Sprintf("%s/%d/%d/%v/%v/%v", c.Fmt, c.Shapes[pos], pos, c.CRLF, withQual, c.WithFeat)
 	if o, ok := c01aloneCache[key]; ok {
 		return o
 	}
@@ -578,7 +689,7 @@ func c01alone(c c01case, pos int, withQual bool) *c01obs {
 	txt = strings.TrimRight(txt, "\r\n")
 	var res *c01obs
 	ab := c01isolate(func() {
-		p, _ := c01parser(c.Fmt, withQual)
+		p, _ := c01parser(c.Fmt, withQual, c.WithFeat)
 		sl, err := p("c01", bytes.NewBufferString(txt))
 		if err == nil && len(sl) == 1 {
 			o := c01observe(sl[0])
@@ -619,6 +730,33 @@ func c01compare(site, ssite string, c c01case, f c01file, got []c01obs, lastOfCh
 		add(class, fmt.Sprintf("delivered %d records %q, the file has %d", len(got), ids, len(f.recs)))
 		return out
 	}
+	// the records of the file, all of them, but not in file order: a fault of the entry point
+	// (re-ordering of the chunks), not of the record parser
+	{
+		inOrder := true
+		left := map[string]int{}
+		for i, g := range got {
+			if g.Id != f.recs[i].Id {
+				inOrder = false
+			}
+			left[g.Id]++
+			left[f.recs[i].Id]--
+		}
+		perm := !inOrder
+		for _, n := range left {
+			if n != 0 {
+				perm = false
+			}
+		}
+		if perm {
+			first := 0
+			for first < len(got) && got[first].Id == f.recs[first].Id {
+				first++
+			}
+			add("records-out-of-file-order", fmt.Sprintf("the %d records of the file are delivered in another order: rank %d holds %s, the file has %s there", len(got), first, got[first].Id, f.recs[first].Id))
+			return out
+		}
+	}
 	padOff := len(f.recs) - len(c.Shapes)
 	for i, g := range got {
 		w := f.recs[i]
@@ -655,6 +793,19 @@ func c01compare(site, ssite string, c c01case, f c01file, got []c01obs, lastOfCh
 			if !bytes.Equal(g.Qual, w.Qual) {
 				add("qualities", fmt.Sprintf("%s: qualities %v want %v", where, g.Qual, w.Qual))
 			}
+		}
+		// feature table (flat files, when asked for): the lines of the record's own table
+		if c.WithFeat && (c.Fmt == "genbank" || c.Fmt == "embl") && g.Feat != w.Feat {
+			class := "features"
+			switch {
+			case g.Feat == "":
+				class = "features:missing"
+			case i > 0 && f.recs[i-1].Feat != "" && strings.Contains(g.Feat, f.recs[i-1].Feat) && (f.recs[i-1].Feat != w.Feat || len(g.Feat) > len(w.Feat)):
+				class = "features:carries-the-table-of-the-previous-record"
+			case strings.HasPrefix(w.Feat, g.Feat) || strings.HasSuffix(w.Feat, g.Feat):
+				class = "features:truncated"
+			}
+			add(class, fmt.Sprintf("%s: feature table %q want %q", where, g.Feat, w.Feat))
 		}
 		// annotations
 		var alone *c01obs
@@ -828,7 +979,7 @@ func c01sameChunks(a, b []c01chunk) bool {
 // c01parseChunks parses every chunk (in Order) and returns the concatenated observations.
 func c01parseChunks(c c01case, chunks []c01chunk, withQual bool) (obs []c01obs, last []bool, site string, ab string) {
 	var p SeqFileChunkParser
-	p, site = c01parser(c.Fmt, withQual)
+	p, site = c01parser(c.Fmt, withQual, c.WithFeat)
 	sorted := append([]c01chunk{}, chunks...)
 	sort.SliceStable(sorted, func(i, j int) bool { return sorted[i].order < sorted[j].order })
 	ab = c01isolate(func() {
@@ -848,13 +999,17 @@ func c01parseChunks(c c01case, chunks []c01chunk, withQual bool) (obs []c01obs, 
 
 type c01ctx struct {
 	r      *verifkit.Result
-	replay bool // replaying one stored case: only its with_quality setting is parsed
+	replay bool            // replaying one stored case: only its with_quality setting is parsed
+	hung   map[string]bool // entry points that deadlocked in this process
+	// thorough full shape products: flat files are parsed with the feature table only (it observes
+	// everything the other mode observes; both modes run on the quick shape sets)
+	featOnly bool
 }
 
 func (x *c01ctx) report(c c01case, vs []c01viol) {
 	for _, v := range vs {
-		x.r.Violate(v.key, fmt.Sprintf("%s [fmt=%s shapes=%v crlf=%v relhdr=%v transport=%s split=%d buf=%d part=%s reader=%s ext=%s workers=%d pad=%d]",
-			v.desc, c.Fmt, c.Shapes, c.CRLF, c.RelHdr, c.Transport, c.Split, c.Buf, c.Part, c.Reader, c.Ext, c.Workers, c.Pad), c)
+		x.r.Violate(v.key, fmt.Sprintf("%s [fmt=%s shapes=%v crlf=%v relhdr=%v transport=%s split=%d buf=%d part=%s reader=%s ext=%s workers=%d pad=%d features=%v fullfilebatch=%v fd0=%s]",
+			v.desc, c.Fmt, c.Shapes, c.CRLF, c.RelHdr, c.Transport, c.Split, c.Buf, c.Part, c.Reader, c.Ext, c.Workers, c.Pad, c.WithFeat, c.FullBatch, c.Fd0), c)
 	}
 }
 
@@ -897,18 +1052,29 @@ func (x *c01ctx) evalE1(c c01case, f c01file, payload []byte, ref []c01chunk, ha
 	fh := fnv.New64a()
 	fh.Write(f.data)
 	r.State(fmt.Sprintf("%s|%x|%s", c.Fmt, fh.Sum64(), c01chunkSig(chunks)))
-	quals := []bool{true}
-	if c.Fmt == "fastq" {
-		quals = []bool{true, false}
+	type pmode struct{ wq, wf bool }
+	modes := []pmode{{true, false}}
+	switch c.Fmt {
+	case "fastq":
+		modes = []pmode{{true, false}, {false, false}}
+	case "genbank", "embl":
+		modes = []pmode{{true, false}, {true, true}} // without / with the feature table
+		if x.featOnly {
+			modes = modes[1:]
+		}
 	}
 	if x.replay {
-		quals = []bool{c.WithQual}
+		modes = []pmode{{c.WithQual, c.WithFeat}}
 	}
-	for _, wq := range quals {
-		obs, last, site, ab := c01parseChunks(c, chunks, wq)
-		r.Count("chunk_parses", int64(len(chunks)))
+	for _, m := range modes {
+		wq := m.wq
 		cc := c
-		cc.WithQual = wq
+		cc.WithQual, cc.WithFeat = wq, m.wf
+		obs, last, site, ab := c01parseChunks(cc, chunks, wq)
+		r.Count("chunk_parses", int64(len(chunks)))
+		if m.wf {
+			r.Count("chunk_parses_with_feature_table", int64(len(chunks)))
+		}
 		if ab != "" {
 			x.report(cc, []c01viol{{site + "/" + c01abClass(ab), ab + " (chunks " + c01chunkSig(chunks) + ")"}})
 			continue
@@ -1014,12 +1180,188 @@ func c01write(name string, c c01case, data []byte) string {
 	return p
 }
 
-// c01evalPipe reads a real file through a production entry point.
+// ---- file descriptor 0 of the process as the transport (the commands read os.Stdin / C stdin)
+
+var c01savedStdin = -1
+
+// c01pipeFeed writes the payload into the write end of a pipe (in pieces: the reader sees short reads
+// when it is faster than the feeder) and closes it.
+func c01pipeFeed(fd int, payload []byte) {
+	defer syscall.Close(fd)
+	for len(payload) > 0 {
+		n := 60000
+		if n > len(payload) {
+			n = len(payload)
+		}
+		w, err := syscall.Write(fd, payload[:n])
+		if err != nil {
+			return // reader gone (EPIPE is ignored by the Go runtime for fds other than 1 and 2)
+		}
+		payload = payload[w:]
+	}
+}
+
+// c01setStdin makes fd 0 a regular file ("file", like `cmd < FILE`) or the read end of a pipe ("pipe",
+// like `cat FILE | cmd`) delivering payload; the returned function restores the original fd 0.
+func c01setStdin(kind string, payload []byte) func() {
+	if c01savedStdin < 0 {
+		fd, err := syscall.Dup(0)
+		if err != nil {
+			panic(err)
+		}
+		c01savedStdin = fd
+	}
+	switch kind {
+	case "file":
+		p := filepath.Join(c01tmp, "c01_stdin.dat")
+		if err := os.WriteFile(p, payload, 0o644); err != nil {
+			panic(err)
+		}
+		fd, err := syscall.Open(p, syscall.O_RDONLY, 0)
+		if err != nil {
+			panic(err)
+		}
+		if err := syscall.Dup3(fd, 0, 0); err != nil {
+			panic(err)
+		}
+		syscall.Close(fd)
+		os.Remove(p)
+	case "pipe":
+		var p [2]int
+		if err := syscall.Pipe(p[:]); err != nil {
+			panic(err)
+		}
+		if err := syscall.Dup3(p[0], 0, 0); err != nil {
+			panic(err)
+		}
+		syscall.Close(p[0])
+		go c01pipeFeed(p[1], payload)
+	default:
+		panic("c01: fd0 kind " + kind)
+	}
+	return func() {
+		if err := syscall.Dup3(c01savedStdin, 0, 0); err != nil {
+			panic(err)
+		}
+	}
+}
+
+// c01open calls the production entry point the case names. path: the real file ("" for stdin cases).
+func c01open(c c01case, path string) (site string, it obiiter.IBioSequence, err error) {
+	opts := []WithOption{OptionFastSeqDoNotParseHeader(), OptionsParallelWorkers(c.Workers), OptionsReadQualities(c.WithQual), OptionsBatchSize(3)}
+	if c.WithFeat {
+		opts = append(opts, WithFeatureTable(true))
+	}
+	if c.FullBatch {
+		opts = append(opts, OptionsFullFileBatch(true))
+	}
+	switch c.Reader {
+	case "universal":
+		site = "ReadSequencesFromFile/" + c.Fmt
+		it, err = ReadSequencesFromFile(path, opts...)
+	case "universal-dash":
+		site = "ReadSequencesFromFile(-)/" + c.Fmt
+		it, err = ReadSequencesFromFile("-", opts...)
+	case "kseq":
+		site = "ReadFastSeqFromFile/" + c.Fmt
+		it, err = ReadFastSeqFromFile(path, opts...)
+	case "kseq-stdin":
+		site = "ReadFastSeqFromStdin/" + c.Fmt
+		it = ReadFastSeqFromStdin(opts...)
+	case "format", "format-dash":
+		if c.Reader == "format-dash" {
+			path = "-"
+		}
+		switch c.Fmt {
+		case "fasta":
+			site = "ReadFastaFromFile"
+			it, err = ReadFastaFromFile(path, opts...)
+		case "fastq":
+			site = "ReadFastqFromFile"
+			it, err = ReadFastqFromFile(path, opts...)
+		case "genbank":
+			site = "ReadGenbankFromFile"
+			it, err = ReadGenbankFromFile(path, opts...)
+		case "embl":
+			site = "ReadEMBLFromFile"
+			it, err = ReadEMBLFromFile(path, opts...)
+		}
+		if c.Reader == "format-dash" {
+			site += "(-)"
+		}
+	case "format-stdin": // what CLIReadBioSequences does for an imposed flat-file format + the exported *FromStdin readers
+		switch c.Fmt {
+		case "fasta":
+			site = "ReadFastaFromStdin"
+			it, err = ReadFastaFromStdin(nil, opts...)
+		case "fastq":
+			site = "ReadFastqFromStdin"
+			it, err = ReadFastqFromStdin(nil, opts...)
+		case "genbank":
+			site = "ReadGenbank(os.Stdin)"
+			it, err = ReadGenbank(os.Stdin, append(opts, OptionsSource("stdin"))...)
+		case "embl":
+			site = "ReadEMBL(os.Stdin)"
+			it, err = ReadEMBL(os.Stdin, append(opts, OptionsSource("stdin"))...)
+		}
+	default:
+		panic("c01: reader " + c.Reader)
+	}
+	if c.FullBatch {
+		site += "+full-file-batch"
+	}
+	return
+}
+
+func c01payload(ext string, data []byte) []byte {
+	switch ext {
+	case ".gz":
+		return c01compress("gzip", data)
+	case ".bz2":
+		return c01compress("bzip2", data)
+	case ".xz":
+		return c01compress("xz", data)
+	case ".zst":
+		return c01compress("zstd", data)
+	}
+	return data
+}
+
+// c01evalPipe reads a real file (or the process's stdin) through a production entry point.
 func (x *c01ctx) evalPipe(c c01case, f c01file) {
+	x.evalRead(c, f.data, func(obs []c01obs, site, csite string, wq bool) []c01viol {
+		return c01compare(csite, site, c, f, obs, nil, wq, "")
+	})
+}
+
+// evalRead: data -> file or stdin -> entry point -> records (batches put in Order) -> judge.
+func (x *c01ctx) evalRead(c c01case, data []byte, judge func(obs []c01obs, site, csite string, wq bool) []c01viol) {
 	r := x.r
-	ext := map[string]string{"fasta": ".fasta", "fastq": ".fastq", "genbank": ".gb", "embl": ".dat"}[c.Fmt]
-	path := c01write("c01_"+c.Part+ext, c, f.data)
-	defer os.Remove(path)
+	path := ""
+	if c.Part == "stdin" {
+		restore := c01setStdin(c.Fd0, c01payload(c.Ext, data))
+		defer restore()
+	} else if c.Part == "bigflat" {
+		path = filepath.Join(c01tmp, "c01_bigflat"+map[string]string{"genbank": ".gb", "embl": ".dat"}[c.Fmt])
+		if err := os.WriteFile(path, data, 0o644); err != nil {
+			panic(err)
+		}
+		defer os.Remove(path)
+	} else {
+		ext := map[string]string{"fasta": ".fasta", "fastq": ".fastq", "genbank": ".gb", "embl": ".dat"}[c.Fmt]
+		path = c01write("c01_"+c.Part+ext, c, data)
+		defer os.Remove(path)
+	}
+	// a site that deadlocked once in this process is not called again (every further call would
+	// cost the watchdog's delay and report the same key)
+	if x.hung == nil {
+		x.hung = map[string]bool{}
+	}
+	hkey := fmt.Sprintf("%s|%s|%v", c.Reader, c.Fmt, c.FullBatch)
+	if x.hung[hkey] {
+		r.Count("pipeline_reads_skipped_after_deadlock", 1)
+		return
+	}
 	var obs []c01obs
 	var orders []int
 	var openErr error
@@ -1038,32 +1380,9 @@ func (x *c01ctx) evalPipe(c c01case, f c01file) {
 					}
 				}
 			}()
-			opts := []WithOption{OptionFastSeqDoNotParseHeader(), OptionsParallelWorkers(c.Workers), OptionsReadQualities(c.WithQual), OptionsBatchSize(3)}
 			var it obiiter.IBioSequence
 			var err error
-			switch c.Reader {
-			case "universal":
-				site = "ReadSequencesFromFile/" + c.Fmt
-				it, err = ReadSequencesFromFile(path, opts...)
-			case "kseq":
-				site = "ReadFastSeqFromFile/" + c.Fmt
-				it, err = ReadFastSeqFromFile(path, opts...)
-			case "format":
-				switch c.Fmt {
-				case "fasta":
-					site = "ReadFastaFromFile"
-					it, err = ReadFastaFromFile(path, opts...)
-				case "fastq":
-					site = "ReadFastqFromFile"
-					it, err = ReadFastqFromFile(path, opts...)
-				case "genbank":
-					site = "ReadGenbankFromFile"
-					it, err = ReadGenbankFromFile(path, opts...)
-				case "embl":
-					site = "ReadEMBLFromFile"
-					it, err = ReadEMBLFromFile(path, opts...)
-				}
-			}
+			site, it, err = c01open(c, path)
 			if err != nil {
 				openErr = err
 				close(done)
@@ -1081,7 +1400,16 @@ func (x *c01ctx) evalPipe(c c01case, f c01file) {
 	})
 	r.Eval(1)
 	r.Count("pipeline_reads", 1)
+	if c.FullBatch {
+		r.Count("pipeline_reads_full_file_batch", 1)
+	}
+	if c.Part == "stdin" {
+		r.Count("stdin_reads_"+c.Reader+"_"+c.Fd0+c.Ext, 1)
+	}
 	if ab != "" {
+		if c01abClass(ab) == "deadlock" {
+			x.hung[hkey] = true
+		}
 		x.report(c, []c01viol{{site + "/" + c01abClass(ab), ab}})
 		return
 	}
@@ -1095,22 +1423,123 @@ func (x *c01ctx) evalPipe(c c01case, f c01file) {
 			break
 		}
 	}
+	if c.FullBatch && len(orders) > 1 {
+		x.report(c, []c01viol{{site + "/more-than-one-batch", fmt.Sprintf("full file batch mode delivered batches %v", orders)}})
+	}
 	r.Trans(int64(len(orders)))
 	if len(orders) >= 3 {
 		r.Count("pipeline_reads_with_3+_batches", 1)
 	}
 	r.Count("records_parsed", int64(len(obs)))
 	wq := c.WithQual
-	if c.Reader == "kseq" {
+	kseq := c.Reader == "kseq" || c.Reader == "kseq-stdin"
+	if kseq {
 		wq = true // the kseq reader has no option to skip qualities
 	}
-	csite := "ReadFastSeqFromFile" // kseq reader: one site for both formats
-	if c.Reader != "kseq" {
-		_, csite = c01parser(c.Fmt, wq) // record content is produced by the chunk parser
+	var csite string
+	if kseq {
+		// kseq reader: one site for both formats, structure and content
+		site = strings.Replace(site, "/"+c.Fmt, "", 1)
+		csite = site
 	} else {
-		site = csite
+		_, csite = c01parser(c.Fmt, wq, c.WithFeat) // record content is produced by the chunk parser
 	}
-	x.report(c, c01compare(csite, site, c, f, obs, nil, wq, ""))
+	x.report(c, judge(obs, site, csite, wq))
+}
+
+// ---- big flat files: more than the 128 MiB production buffer of ReadGenbank / ReadEMBL
+
+const c01bigFlatRecLen = 100020 // bases per record (a multiple of 60)
+
+func c01bigFlatSeq(base string, i int) string {
+	r := (i * 37) % len(base)
+	return base[r:] + base[:r]
+}
+
+// c01bigFlat builds a flat file a little larger than 128 MiB (+3 MiB): n records of 100 kb.
+func c01bigFlat(f string) (data []byte, n int, base string) {
+	base = c01seq(7, 7, c01bigFlatRecLen)
+	var bb bytes.Buffer
+	bb.Grow(140 << 20)
+	spaces := "                    "
+	for n = 0; bb.Len() < (128+3)<<20; n++ {
+		seq := c01bigFlatSeq(base, n)
+		L := len(seq)
+		if f == "genbank" {
+			fmt.Fprintf(&bb, "LOCUS       BIG%d %d bp    DNA     linear   SYN 01-JAN-2000\nDEFINITION  Synthetic big record %d.\nACCESSION   BIG%d\nFEATURES             Location/Qualifiers\n     source          1..%d\n                     /db_xref=\"taxon:%d\"\nORIGIN      \n", n, L, n, n, L, 1000+n)
+		} else {
+			fmt.Fprintf(&bb, "ID   BIG%d; SV 1; linear; genomic DNA; STD; SYN; %d BP.\nXX\nDE   Synthetic big record %d.\nXX\nFH   Key             Location/Qualifiers\nFH\nFT   source          1..%d\nFT                   /db_xref=\"taxon:%d\"\nXX\nSQ   Sequence %d BP; 0 A; 0 C; 0 G; 0 T; 0 other;\n", n, L, n, L, 1000+n, L)
+		}
+		for i := 0; i < L; i += 60 {
+			if f == "genbank" {
+				num := fmt.Sprint(i + 1)
+				bb.WriteString(spaces[:9-len(num)])
+				bb.WriteString(num)
+			} else {
+				bb.WriteString("    ")
+			}
+			for j := i; j < i+60; j += 10 {
+				bb.WriteByte(' ')
+				bb.WriteString(seq[j : j+10])
+			}
+			if f == "embl" {
+				num := fmt.Sprint(i + 60)
+				bb.WriteString(spaces[:10-len(num)])
+				bb.WriteString(num)
+			}
+			bb.WriteByte('\n')
+		}
+		bb.WriteString("//\n")
+	}
+	return bb.Bytes(), n, base
+}
+
+// evalBigFlat: ReadGenbankFromFile / ReadEMBLFromFile on a file of two production chunks.
+func (x *c01ctx) evalBigFlat(c c01case) {
+	data, n, base := c01bigFlat(c.Fmt)
+	x.evalRead(c, data, func(obs []c01obs, site, csite string, wq bool) []c01viol {
+		data = nil
+		var out []c01viol
+		site += "/two-production-chunks"
+		if len(obs) != n {
+			class := "records-missing"
+			if len(obs) > n {
+				class = "records-extra"
+			}
+			return []c01viol{{site + "/" + class, fmt.Sprintf("delivered %d records, the file has %d", len(obs), n)}}
+		}
+		misplaced, first := 0, -1
+		ids := map[string]bool{}
+		for i, g := range obs {
+			ids[g.Id] = true
+			if g.Id != fmt.Sprintf("BIG%d", i) {
+				misplaced++
+				if first < 0 {
+					first = i
+				}
+			}
+		}
+		if misplaced > 0 {
+			class := "id"
+			if len(ids) == n {
+				class = "record-order" // every record is there, not in file order
+			}
+			return []c01viol{{site + "/" + class, fmt.Sprintf("%d of %d records are not at their rank: rank %d holds %s, rank 0 holds %s", misplaced, n, first, obs[first].Id, obs[0].Id)}}
+		}
+		for i, g := range obs {
+			if g.Seq != c01bigFlatSeq(base, i) {
+				out = append(out, c01viol{csite + "/sequence", fmt.Sprintf("record %d (%s): sequence of %d bases differs from the file's (%d bases)", i, g.Id, len(g.Seq), len(base))})
+				break
+			}
+			if want := fmt.Sprintf("int:%d", 1000+i); g.Ann["taxid"] != want {
+				out = append(out, c01viol{csite + "/annotation:taxid", fmt.Sprintf("record %d (%s): taxid %q want %q", i, g.Id, g.Ann["taxid"], want)})
+				break
+			}
+		}
+		x.r.Count("bigflat_records", int64(n))
+		return out
+	})
+	runtime.GC()
 }
 
 // ---------------------------------------------------------------- corpus enumeration
@@ -1208,6 +1637,15 @@ func TestVerifC01(t *testing.T) {
 		case "e4":
 			f, _ := c01big(c.Fmt)
 			x.evalPipe(c, f)
+		case "stdin":
+			if c.Big {
+				f, _ := c01big(c.Fmt)
+				x.evalPipe(c, f)
+			} else {
+				x.evalPipe(c, c01build(c))
+			}
+		case "bigflat":
+			x.evalBigFlat(c)
 		}
 		return
 	}
@@ -1294,6 +1732,8 @@ func TestVerifC01(t *testing.T) {
 	// ---- E1 main corpus: whole + byte-by-byte, every buffer size
 	seenFile := map[string]bool{}
 	runMain := func(fullProduct bool) (stop bool) {
+		x.featOnly = fullProduct
+		defer func() { x.featOnly = false }()
 		order := formats
 		if fullProduct {
 			// flat files first: their parsers carry per-record state, the costliest products go last
@@ -1409,9 +1849,27 @@ func TestVerifC01(t *testing.T) {
 								if !thorough && !((rdr == "universal" && w == 2) || (rdr == "format" && w != 2 && (ext == "" || ext == ".gz"))) {
 									continue
 								}
-								pc := c
-								pc.Part, pc.Reader, pc.Ext, pc.Workers, pc.WithQual = "pipe", rdr, ext, w, true
-								x.evalPipe(pc, get())
+								// options: full file batch x (flat files) feature table
+								flat := c.Fmt == "genbank" || c.Fmt == "embl"
+								for _, fb := range []bool{false, true} {
+									for _, wf := range []bool{false, true} {
+										if wf && !flat {
+											continue
+										}
+										if !thorough && flat && fb && !wf {
+											continue // quick: full file batch of flat files with the feature table only
+										}
+										pc := c
+										pc.Part, pc.Reader, pc.Ext, pc.Workers, pc.WithQual = "pipe", rdr, ext, w, true
+										pc.FullBatch, pc.WithFeat = fb, wf
+										x.evalPipe(pc, get())
+										if c.Fmt == "fastq" && ext == "" && (thorough || (rdr == "format" && w == 1)) {
+											pc.WithQual = false // OptionsReadQualities(false): no record stores qualities
+											x.evalPipe(pc, get())
+											r.Count("pipeline_reads_without_qualities", 1)
+										}
+									}
+								}
 							}
 						}
 					}
@@ -1456,6 +1914,107 @@ func TestVerifC01(t *testing.T) {
 			})
 			if stop {
 				return
+			}
+		}
+	}
+
+	// ---- stdin: file descriptor 0 of the process is the transport (regular file: `cmd < FILE`, pipe:
+	// `cat FILE | cmd`), read by the entry points the commands use for it: ReadFastSeqFromStdin (kseq
+	// on C stdin), ReadGenbank / ReadEMBL on os.Stdin, and by the exported ReadFasta/FastqFromStdin and
+	// the "-" file name of Read*FromFile
+	for _, f := range formats {
+		if !want("stdin", f) {
+			continue
+		}
+		flat := f == "genbank" || f == "embl"
+		for _, v := range variants(f) {
+			stop := false
+			c01tuples(reduced[f], 3, func(tp []int) {
+				if stop {
+					return
+				}
+				mine := r.Mine(k)
+				k++
+				if !mine {
+					return
+				}
+				if r.Expired() {
+					stop = true
+					return
+				}
+				t0 := c01cpu()
+				c := v
+				c.Part, c.Shapes, c.Workers, c.WithQual = "stdin", tp, 2, true
+				file := c01build(c)
+				type sc struct {
+					rdr, fd0, ext string
+					quick         bool
+				}
+				var scs []sc
+				if !flat {
+					for _, fd0 := range []string{"file", "pipe"} {
+						for _, ext := range []string{"", ".gz"} {
+							scs = append(scs, sc{"kseq-stdin", fd0, ext, true})
+							scs = append(scs, sc{"format-stdin", fd0, ext, (fd0 == "file") == (ext == "")})
+							scs = append(scs, sc{"universal-dash", fd0, ext, fd0 == "pipe" && ext == ""})
+							scs = append(scs, sc{"format-dash", fd0, ext, fd0 == "file" && ext == ".gz"})
+						}
+					}
+				} else {
+					for _, fd0 := range []string{"file", "pipe"} {
+						scs = append(scs, sc{"format-stdin", fd0, "", true}) // the commands hand os.Stdin itself to ReadGenbank / ReadEMBL: no decompression
+						for _, ext := range []string{"", ".gz"} {
+							scs = append(scs, sc{"universal-dash", fd0, ext, (fd0 == "pipe") == (ext == "")})
+							scs = append(scs, sc{"format-dash", fd0, ext, (fd0 == "file") == (ext == "")})
+						}
+					}
+				}
+				for _, s := range scs {
+					if !thorough && !s.quick {
+						continue
+					}
+					if s.rdr == "universal-dash" && c.Fmt == "genbank" && c.RelHdr && c.CRLF {
+						continue // format sniffing of a CRLF release header is outside the statement
+					}
+					pc := c
+					pc.Reader, pc.Fd0, pc.Ext = s.rdr, s.fd0, s.ext
+					pc.WithFeat = flat && s.fd0 == "pipe"
+					x.evalPipe(pc, file)
+					r.Count("stdin_reads", 1)
+				}
+				r.Count("cpu_ms_stdin", c01cpuSince(t0))
+			})
+			if stop {
+				return
+			}
+		}
+	}
+
+	// ---- big flat files (thorough): > 128 MiB, the only way to get two production chunks out of
+	// ReadGenbank / ReadEMBL; 2 and 3 parser workers, with and without full file batch
+	if thorough {
+		for _, f := range []string{"genbank", "embl"} {
+			if !want("bigflat", f) {
+				continue
+			}
+			for _, fb := range []bool{false, true} {
+				for _, w := range []int{2, 3} {
+					if fb == (w == 3) {
+						continue // (plain, 3 workers) and (full file batch, 2 workers)
+					}
+					mine := r.Mine(k)
+					k++
+					if !mine {
+						continue
+					}
+					if r.Expired() {
+						return
+					}
+					t0 := c01cpu()
+					x.evalBigFlat(c01case{Part: "bigflat", Fmt: f, Reader: "format", Workers: w, WithQual: true, FullBatch: fb})
+					r.Count("bigflat_reads", 1)
+					r.Count("cpu_ms_bigflat", c01cpuSince(t0))
+				}
 			}
 		}
 	}
@@ -1559,32 +2118,52 @@ func TestVerifC01(t *testing.T) {
 		}
 		var big c01file
 		built := false
-		for _, rdr := range []string{"format", "universal", "kseq"} {
+		for _, rdr := range []string{"format", "universal", "kseq", "kseq-stdin", "format-stdin"} {
 			for _, ext := range []string{"", ".gz"} {
 				for _, w := range []int{1, 2, 4} {
-					if rdr == "kseq" && w != 1 {
-						continue
+					for _, fb := range []bool{false, true} {
+						for _, fd0 := range []string{"file", "pipe"} {
+							stdin := strings.HasSuffix(rdr, "-stdin")
+							if !stdin && fd0 != "file" {
+								continue // fd0 is a dimension of the stdin readers only
+							}
+							if strings.HasPrefix(rdr, "kseq") && w != 1 {
+								continue
+							}
+							if stdin && (fb || (rdr == "format-stdin" && w != 2)) {
+								continue
+							}
+							if !thorough && ((rdr == "format" && w == 2) || (rdr == "universal" && (w != 2 || ext != ""))) {
+								continue
+							}
+							if !thorough && fb && !(ext == "" && ((rdr == "format" && w == 4) || rdr == "kseq")) {
+								continue
+							}
+							if !thorough && stdin && !((rdr == "kseq-stdin" && ((fd0 == "pipe") == (ext == ""))) || (rdr == "format-stdin" && fd0 == "pipe" && ext == ".gz")) {
+								continue // quick: kseq on a plain pipe and a gzip file, Go reader on a gzip pipe
+							}
+							mine := r.Mine(k)
+							k++
+							if !mine {
+								continue
+							}
+							if r.Expired() {
+								return
+							}
+							if !built {
+								big, _ = c01big(f)
+								built = true
+							}
+							t0 := c01cpu()
+							c := c01case{Part: "e4", Fmt: f, Reader: rdr, Ext: ext, Workers: w, WithQual: true, FullBatch: fb}
+							if stdin {
+								c.Part, c.Fd0, c.Big = "stdin", fd0, true
+							}
+							x.evalPipe(c, big)
+							r.Count("e4_reads", 1)
+							r.Count("cpu_ms_e4", c01cpuSince(t0))
+						}
 					}
-					if !thorough && ((rdr == "format" && w == 2) || (rdr == "universal" && (w != 2 || ext != ""))) {
-						continue
-					}
-					mine := r.Mine(k)
-					k++
-					if !mine {
-						continue
-					}
-					if r.Expired() {
-						return
-					}
-					if !built {
-						big, _ = c01big(f)
-						built = true
-					}
-					t0 := c01cpu()
-					c := c01case{Part: "e4", Fmt: f, Reader: rdr, Ext: ext, Workers: w, WithQual: true}
-					x.evalPipe(c, big)
-					r.Count("e4_reads", 1)
-					r.Count("cpu_ms_e4", c01cpuSince(t0))
 				}
 			}
 		}
